@@ -572,8 +572,7 @@ func (g *flowGraph) callResult(c *ssa.Call, idx int) (out []fedge, leaf string) 
 	if len(out) == 0 {
 		return nil, "lib:" + name
 	}
-	// keep the call itself visible as a pseudo-leaf for source matching
-	return out, "lib:" + name
+	return out, ""
 }
 
 // ---- queries ----
